@@ -1,5 +1,5 @@
 ------------------------------- MODULE MCXor -------------------------------
-(* C13, constructor direction: records {fam, ip, port, tid, wire, back, other_tid, back_other} produced by
+(* C13, constructor direction: records {fam, ip, port, tid, wire, back, other_tid, back_other, direct, direct_other} produced by
    XorMappedAddress::new(addr, tid) -> to_raw() -> from_raw() -> addr(tid) / addr(other_tid) are judged here. *)
 EXTENDS StunAttrs, TLC, Json, IOUtils
 Tab == IF "TABLE" \in DOMAIN IOEnv THEN ndJsonDeserialize(IOEnv.TABLE) ELSE <<>>
@@ -11,6 +11,9 @@ Bad(r) ==
   \/ r.back_other # Fields(XORMAPPEDADDRESS, w, r.other_tid).addr           \* under another id: what XOR with that id gives
   \/ (r.fam = 2 /\ r.other_tid # r.tid /\ r.back_other.ip = r.ip)           \* ... which for IPv6 is a different address
   \/ (r.fam = 1 /\ r.back_other.ip # r.ip)                                  \* IPv4 does not depend on the id
+  \/ r.direct # [fam |-> r.fam, ip |-> r.ip, port |-> r.port]               \* the same answers from the attribute as constructed,
+  \/ r.direct_other # Fields(XORMAPPEDADDRESS, w, r.other_tid).addr         \* never serialised, and from its clone
+  \/ ~r.clone_same
   \/ ~r.write_same
 BadIdx == {i \in 1..Len(Tab) : Bad(Tab[i])}
 ASSUME PrintT("JUDGED " \o ToString(Len(Tab)))
